@@ -122,6 +122,20 @@ async fn probe_main<S: Sys>(env: &mut Env<S>, args: Vec<Field>) -> BResult {
     out(env, &text).await
 }
 
+/// `mark ID...`: like `probe` but writes nothing (safe inside pipelines), returns 0.
+fn mark_main<S: Sys>(env: &mut Env<S>, args: Vec<Field>) -> BResult {
+    let entry = TraceEntry { pid: env.system.getpid().0, status: env.exit_status.0, args: values(&args) };
+    TRACE.with(|t| t.borrow_mut().push(entry));
+    BResult::new(ExitStatus(0))
+}
+
+/// `mb`: a mandatory built-in that records `mb` in the trace and returns 5 (command-search tests).
+fn mb_main<S: Sys>(env: &mut Env<S>, _args: Vec<Field>) -> BResult {
+    let entry = TraceEntry { pid: env.system.getpid().0, status: env.exit_status.0, args: vec!["mb".into()] };
+    TRACE.with(|t| t.borrow_mut().push(entry));
+    BResult::new(ExitStatus(5))
+}
+
 fn st_main<S: Sys>(_env: &mut Env<S>, args: Vec<Field>) -> BResult {
     let n = args.first().and_then(|f| f.value.parse::<i32>().ok()).unwrap_or(0);
     BResult::new(ExitStatus(n))
@@ -245,6 +259,8 @@ pub fn register<S: Sys>(env: &mut Env<S>) {
     let list: Vec<(&'static str, Builtin<S>)> = vec![
         ("echo", Builtin::new(Type::Mandatory, |env, args| Box::pin(echo_main(env, args)))),
         ("probe", Builtin::new(Type::Mandatory, |env, args| Box::pin(probe_main(env, args)))),
+        ("mark", Builtin::new(Type::Mandatory, |env, args| Box::pin(ready(mark_main(env, args))))),
+        ("mb", Builtin::new(Type::Mandatory, |env, args| Box::pin(ready(mb_main(env, args))))),
         ("st", Builtin::new(Type::Mandatory, |env, args| Box::pin(ready(st_main(env, args))))),
         ("cnt", Builtin::new(Type::Mandatory, |env, args| Box::pin(ready(cnt_main(env, args))))),
         ("cat", Builtin::new(Type::Mandatory, |env, args| Box::pin(cat_main(env, args)))),
